@@ -199,6 +199,37 @@ func runC13(r *mc.Run) {
 			add(fmt.Sprintf("bad/int/tcb%d=%s", i+1, bi.name), base, assemble(base, stdOrder, t, top), wantError)
 		}
 	}
+	// TCB members under object identifiers the decoder does not expect: the member it replaces is absent
+	for i := 0; i < 18; i++ {
+		for _, arc := range []int{0, 19, 127, 128, 255, 300, 70000} {
+			t := append([][]byte(nil), tcb...)
+			val := world.DERInt64(int64(base.CPUSVN[i%16]))
+			if i == 17 {
+				val = world.DEROctet(base.CPUSVN[:])
+			}
+			t[i] = world.DERSeq(oid(2, arc), val)
+			cases = append(cases, c13case{id: fmt.Sprintf("oid/tcb%d-as-arc%d", i+1, arc), exts: sixExts(assemble(base, stdOrder, t, top)), plat: base, want: wantErrorOrPartial,
+				absent: map[string]bool{fmt.Sprintf("tcb%d", i+1): true}})
+		}
+		// same OID prefix, one arc shorter / longer
+		t := append([][]byte(nil), tcb...)
+		t[i] = world.DERSeq(oid(2), world.DERInt64(1))
+		cases = append(cases, c13case{id: fmt.Sprintf("oid/tcb%d-as-parent", i+1), exts: sixExts(assemble(base, stdOrder, t, top)), plat: base, want: wantErrorOrPartial, absent: map[string]bool{fmt.Sprintf("tcb%d", i+1): true}})
+		t2 := append([][]byte(nil), tcb...)
+		t2[i] = world.DERSeq(oid(2, i+1, 1), world.DERInt64(1))
+		cases = append(cases, c13case{id: fmt.Sprintf("oid/tcb%d-one-arc-deeper", i+1), exts: sixExts(assemble(base, stdOrder, t2, top)), plat: base, want: wantErrorOrPartial, absent: map[string]bool{fmt.Sprintf("tcb%d", i+1): true}})
+	}
+	for _, k := range []string{"ppid", "pceid", "fmspc"} {
+		for _, arc := range []int{0, 6, 9, 200} {
+			t2 := map[string][]byte{}
+			for kk, v := range top {
+				t2[kk] = v
+			}
+			val := map[string][]byte{"ppid": base.PPID, "pceid": base.PCEID, "fmspc": base.FMSPC}[k]
+			t2[k] = world.DERSeq(oid(arc), world.DEROctet(val))
+			cases = append(cases, c13case{id: fmt.Sprintf("oid/%s-as-arc%d", k, arc), exts: sixExts(assemble(base, stdOrder, tcb, t2)), plat: base, want: wantErrorOrPartial, absent: map[string]bool{k: true}})
+		}
+	}
 	// malformed: octet strings
 	type oct struct {
 		key  string
